@@ -423,7 +423,7 @@ Qed.
 
 Theorem unbond_spec : forall s a s', unbond s a = Ok s' ->
   exists r, recs s a = Some r /\ ~ In a (proposal s) /\ o_online r = false /\
-    has_ubd a (o_val r) (ubds s) = true /\
+    has_ubd a (o_val r) (ubds s) = Gen_OracleSlash.unbond_needs_entry /\
     bal_o s' a = bal_o s a + (bal_d s a - slash_amount r (p_fraction (prm s))) /\
     (0 < slash_amount r (p_fraction (prm s)) -> slash_amount r (p_fraction (prm s)) <= bal_d s a) /\
     bal_d s' a = 0 /\ burned s' = burned s + slash_amount r (p_fraction (prm s)) /\
@@ -432,7 +432,8 @@ Theorem unbond_spec : forall s a s', unbond s a = Ok s' ->
     (forall s'', unbond s' a <> Ok s'').
 Proof.
   intros s a s' H. unfold unbond in H. guards H. inversion H; subst; clear H. rename o into r.
-  exists r. split; auto. split; [intro X; apply memZ_In in X; congruence|]. split; auto. split; auto.
+  exists r. split; auto. split; [intro X; apply memZ_In in X; congruence|]. split; auto.
+  split; [match goal with G : Bool.eqb _ _ = true |- _ => apply Bool.eqb_prop in G; exact G end|].
   proj. rewrite !upd_same.
   pose proof (slash_amount_nonneg r (p_fraction (prm s))) as SN.
   set (sl := slash_amount r (p_fraction (prm s))) in *.
@@ -452,38 +453,57 @@ Proof.
   apply (H u Hu Hc).
 Qed.
 
-(* the inverted condition, in general: once nothing of the oracle is left in the unbonding queue,
-   UnbondedOracle is refused *)
-Theorem unbond_refused_without_pending_entry : forall s a,
+(* the inverted condition, in general (it is what [unbond_needs_entry = true] means): once nothing of the
+   oracle is left in the unbonding queue, UnbondedOracle is refused *)
+Theorem unbond_refused_without_pending_entry : Gen_OracleSlash.unbond_needs_entry = true -> forall s a,
   (forall u, In u (ubds s) -> u_orc u <> a) -> forall s', unbond s a <> Ok s'.
 Proof.
-  intros s a H s' U. apply unbond_spec in U. destruct U as (r & _ & _ & _ & HU & _).
-  rewrite (has_ubd_false a (o_val r) (ubds s) H) in HU. discriminate.
+  intros F s a H s' U. apply unbond_spec in U. destruct U as (r & _ & _ & _ & HU & _).
+  rewrite (has_ubd_false a (o_val r) (ubds s) H), F in HU. discriminate.
 Qed.
 
 (* ... in particular after the block whose time reaches the completion time of all its entries *)
-Theorem unbond_refused_after_maturity : forall s t1 t2 pd s1 a, end_block s t1 t2 pd = Ok s1 ->
+Theorem unbond_refused_after_maturity : Gen_OracleSlash.unbond_needs_entry = true ->
+  forall s t1 t2 pd s1 a, end_block s t1 t2 pd = Ok s1 ->
   (forall u, In u (ubds s) -> u_orc u = a -> u_time u <= t1) ->
   (forall s2, unbond s1 a <> Ok s2) /\ bal_d s1 a = bal_d s a + matured_sum t1 (ubds s) a.
 Proof.
-  intros s t1 t2 pd s1 a H M. apply end_block_spec in H.
+  intros F s t1 t2 pd s1 a H M. apply end_block_spec in H.
   destruct H as (_ & _ & _ & _ & _ & _ & _ & _ & _ & BD & UB & _).
   split; [|apply BD].
-  apply unbond_refused_without_pending_entry. rewrite UB. intros u Hu Eq.
+  apply unbond_refused_without_pending_entry; auto. rewrite UB. intros u Hu Eq.
   apply filter_In in Hu. destruct Hu as [Hu Hc]. apply Bool.negb_true_iff in Hc. apply Z.leb_gt in Hc.
   specialize (M u Hu Eq). lia.
 Qed.
 
 (* so every accepted UnbondedOracle leaves stake of the oracle behind in the unbonding queue: the
    records are deleted, the entry matures later into the delegate address that nobody can move *)
-Theorem unbond_accepted_forfeits_pending_stake : forall s a s', unbond s a = Ok s' ->
+Theorem unbond_accepted_forfeits_pending_stake : Gen_OracleSlash.unbond_needs_entry = true ->
+  forall s a s', unbond s a = Ok s' ->
   exists u, In u (ubds s') /\ u_orc u = a /\ recs s' a = None.
 Proof.
-  intros s a s' H. pose proof H as H0. apply unbond_spec in H. destruct H as (r & _ & _ & _ & HU & _).
-  unfold unbond in H0. guards H0. inversion H0; subst; clear H0. proj.
-  unfold has_ubd in HU. apply existsb_exists in HU. destruct HU as (u & Hu & Hc).
+  intros F s a s' H. destruct (unbond_spec _ _ _ H) as (r & _ & _ & _ & HU & _ & _ & _ & _ & RN & _ & _ & UE & _).
+  rewrite F in HU. unfold has_ubd in HU. apply existsb_exists in HU. destruct HU as (u & Hu & Hc).
   apply andb_true_iff in Hc. destruct Hc as [Hc _]. apply Z.eqb_eq in Hc.
-  exists u. repeat split; auto. apply upd_same.
+  exists u. rewrite UE. repeat split; auto.
+Qed.
+
+(* the intended behaviour, proved for a tree in which the test is the other way round
+   ([unbond_needs_entry = false], i.e. after the patch proposed in docs/findings/C13-1.md): once governance has
+   removed the oracle and nothing of it is left in the unbonding queue, the withdrawal is accepted (and by
+   [unbond_spec] pays delegate balance - penalty, deletes the records, and cannot be repeated) *)
+Theorem unbond_after_maturity_accepted_if_fixed : Gen_OracleSlash.unbond_needs_entry = false ->
+  forall s a r, recs s a = Some r -> ~ In a (proposal s) -> o_online r = false ->
+  (forall u, In u (ubds s) -> u_orc u <> a) ->
+  (0 < slash_amount r (p_fraction (prm s)) -> slash_amount r (p_fraction (prm s)) <= bal_d s a) ->
+  exists s', unbond s a = Ok s'.
+Proof.
+  intros F s a r Hr Hp Off HU HS. unfold unbond.
+  destruct (memZ a (proposal s)) eqn:MP; [exfalso; apply Hp; apply memZ_In; auto|].
+  rewrite Hr, Off, (has_ubd_false a (o_val r) (ubds s) HU), F. cbn [Bool.eqb negb].
+  destruct ((0 <? slash_amount r (p_fraction (prm s))) && (bal_d s a <? slash_amount r (p_fraction (prm s)))) eqn:G.
+  - exfalso. apply andb_true_iff in G. destruct G as [G1 G2]. apply Z.ltb_lt in G1, G2. specialize (HS G1). lia.
+  - eexists. reflexivity.
 Qed.
 
 (* ------------------------------------------------------------------ *)
@@ -516,25 +536,34 @@ Definition w_D : list op :=
 (* "after governance removes an oracle and the unbonding period has passed the oracle can withdraw its
    stake minus penalties": FALSE of the code — the withdrawal is refused, the stake sits at the keyless
    delegate address, the record stays *)
-Theorem unbond_after_maturity_refuted : exists ops a r,
+Definition is_ok (r : res) : bool := match r with Ok _ => true | _ => false end.
+Lemma step_exec_ok : forall s o, is_ok (step s o) = true -> step s o = Ok (exec s o).
+Proof. intros s o H. unfold exec. destruct (step s o); cbn in H; try discriminate; reflexivity. Qed.
+
+(* The two witnesses are stated for the tree as it is ([unbond_needs_entry = true], re-read from the source
+   on every run).  On a tree where the test has been turned round the hypothesis is false, the statements
+   hold vacuously, and [unbond_after_maturity_accepted_if_fixed] applies instead. *)
+Theorem unbond_after_maturity_refuted : Gen_OracleSlash.unbond_needs_entry = true -> exists ops a r,
   let s := run w_init ops in
   recs s a = Some r /\ ~ In a (proposal s) /\ o_online r = false /\ o_slash r = 0 /\
   (forall u, In u (ubds s) -> u_orc u <> a) /\
   o_amount r = FX 10000 /\ bal_d s a = FX 10000 + 7 /\
   step s (Unbond a) = Err e_staking.
 Proof.
-  exists w_A, 0, (mkOracle 0 100 200 (FX 10000) 2 false 0 0). cbv zeta.
-  split; [vm_compute; reflexivity|].
-  split; [vm_compute; intuition discriminate|].
-  split; [reflexivity|]. split; [reflexivity|].
-  split; [assert (E : ubds (run w_init w_A) = []) by (vm_compute; reflexivity); rewrite E; intros u []|].
-  split; [reflexivity|]. split; vm_compute; reflexivity.
+  intro F; first
+  [ discriminate F
+  | exists w_A, 0, (mkOracle 0 100 200 (FX 10000) 2 false 0 0); cbv zeta;
+    split; [vm_compute; reflexivity|];
+    split; [vm_compute; intuition discriminate|];
+    split; [reflexivity|]; split; [reflexivity|];
+    split; [assert (E : ubds (run w_init w_A) = []) by (vm_compute; reflexivity); rewrite E; intros u []|];
+    split; [reflexivity|]; split; vm_compute; reflexivity ].
 Qed.
 
 (* ... and before maturity it is accepted, pays only what is liquid (the 7 units of reward), deletes the
    records; the stake matures into the delegate address of an oracle that no longer exists, and a second
    withdrawal is refused *)
-Theorem unbond_before_maturity_refuted : exists ops a,
+Theorem unbond_before_maturity_refuted : Gen_OracleSlash.unbond_needs_entry = true -> exists ops a,
   let s := run w_init ops in
   exists s1, step s (Unbond a) = Ok s1 /\
     bal_o s1 a - bal_o s a = 7 /\ recs s1 a = None /\ burned s1 = 0 /\
@@ -542,14 +571,13 @@ Theorem unbond_before_maturity_refuted : exists ops a,
     let s2 := exec s1 (EndBlock 1814500 1814505 true) in
     bal_d s2 a = FX 10000 /\ recs s2 a = None /\ step s2 (Unbond a) = Err e_notfound.
 Proof.
-  exists w_B, 0. cbv zeta.
-  destruct (step (run w_init w_B) (Unbond 0)) as [s1| |] eqn:E; [|vm_compute in E; discriminate..].
-  exists s1. split; [reflexivity|].
-  assert (S1 : s1 = exec (run w_init w_B) (Unbond 0)) by (unfold exec; rewrite E; reflexivity).
-  rewrite S1. clear E S1 s1.
-  split; [vm_compute; reflexivity|]. split; [vm_compute; reflexivity|]. split; [vm_compute; reflexivity|].
-  split; [exists (mkUbd 0 0 1814410 (FX 10000)); vm_compute; auto|].
-  split; [vm_compute; reflexivity|]. split; vm_compute; reflexivity.
+  intro F; first
+  [ discriminate F
+  | exists w_B, 0; cbv zeta; exists (exec (run w_init w_B) (Unbond 0));
+    split; [apply step_exec_ok; vm_compute; reflexivity|];
+    split; [vm_compute; reflexivity|]; split; [vm_compute; reflexivity|]; split; [vm_compute; reflexivity|];
+    split; [exists (mkUbd 0 0 1814410 (FX 10000)); vm_compute; auto|];
+    split; [vm_compute; reflexivity|]; split; vm_compute; reflexivity ].
 Qed.
 
 (* "the stake recorded for an oracle is exactly what ... is delegated on its behalf": FALSE of the code —
